@@ -23,7 +23,7 @@ class RawBroadcast(Family):
     timeout_ms = 60000
     assumed = ["numpy fancy gather / in-place op / fancy assignment `a[idx] ^= v` = gather, xor, last-write-wins scatter (witness form)",
                "ufunc.accumulate(bitwise_xor)", "ndarray.view to the unsigned type of the same size is the identity on bit patterns",
-               "lemma (unproved, standard): every flat position j < S(n) lies in exactly one (non-empty) row"]
+               "lemma partition-point (existence of the row containing a flat position; proved by induction in vf.proofs.lemmas)"]
 
     def kinds(self):
         return ["int64-values"]
